@@ -6,6 +6,11 @@ use std::sync::Mutex;
 use std::time::Instant;
 
 pub const VERIF: &str = "/verif";
+/// where evidence and replay files go: /verif, unless VERIF_OUT redirects them (used only by the
+/// mutation-analysis lanes of tools/mutate.py, which must not overwrite the real evidence)
+pub fn out_root() -> String {
+    std::env::var("VERIF_OUT").unwrap_or_else(|_| VERIF.to_string())
+}
 
 #[derive(Clone, Debug)]
 pub struct Violation {
@@ -151,7 +156,7 @@ impl Run {
             }
         }
         let merr = self.machinery_errors.lock().unwrap().clone();
-        let dir = format!("{VERIF}/replay/{}", self.id);
+        let dir = format!("{}/replay/{}", out_root(), self.id);
         let _ = std::fs::create_dir_all(&dir);
         // remove stale artefacts of earlier runs
         if let Ok(rd) = std::fs::read_dir(&dir) {
@@ -242,9 +247,9 @@ impl Run {
             "violations": unknown.len(),
             "machinery_errors": merr,
         });
-        let _ = std::fs::create_dir_all(format!("{VERIF}/evidence"));
+        let _ = std::fs::create_dir_all(format!("{}/evidence", out_root()));
         std::fs::write(
-            format!("{VERIF}/evidence/{}.json", self.id),
+            format!("{}/evidence/{}.json", out_root(), self.id),
             serde_json::to_string_pretty(&ev).unwrap(),
         )
         .expect("cannot write evidence");
